@@ -38,10 +38,21 @@ struct Obs {
     npx: usize,
 }
 
+thread_local! {
+    /// which sub-observation is running (reported with a panic: "draw", "bbox", "points", "contains")
+    static STAGE: std::cell::Cell<&'static str> = const { std::cell::Cell::new("") };
+}
+fn stage(s: &'static str) {
+    STAGE.with(|c| c.set(s));
+}
+
 fn observe(d: &Value) -> Obs {
+    stage("draw");
     let mut t = MapTarget::<C>::new();
     let out = draw_desc::<C, _>(d, &mut t).unwrap();
+    stage("bbox");
     let bbox = bbox_desc::<C>(d);
+    stage("points");
     let mut pts = json!([]);
     let mut cont = json!([]);
     if d["kind"] == "prim" {
@@ -50,6 +61,7 @@ fn observe(d: &Value) -> Obs {
         let (p, _) = s.points(bb.size.width as usize * bb.size.height as usize + 4096);
         pts = seq_runs(&p);
         if s.has_contains() {
+            stage("contains");
             let mut c = BTreeSet::new();
             for y in bb.top_left.y - 2..bb.top_left.y + bb.size.height as i32 + 2 {
                 for x in bb.top_left.x - 2..bb.top_left.x + bb.size.width as i32 + 2 {
@@ -102,7 +114,7 @@ fn run_case(rec: &mut Rec, desc: &Value) {
         }
         Err(p) => {
             rec.note("panicked_cases");
-            rec.ev("panic", json!({"msg": p.msg, "loc": p.loc}));
+            rec.ev("panic", json!({"msg": p.msg, "loc": p.loc, "what": STAGE.with(|c| c.get())}));
         }
     }
 }
@@ -202,6 +214,19 @@ fn main() {
             (poly.clone(), style_desc(-1, col.stroke, 3, 1)),
         ] {
             run_case(&mut rec, &json!({"d": {"kind":"prim","shape":shape,"style":style}, "by": [by.0, by.1]}));
+        }
+    }
+    // closed shapes, arcs, sectors, images and text beyond +-2^30 (sums of two absolute coordinates do not fit i32 there)
+    for (k, by) in [(1_500_000_000, 7), (-1_600_000_000, -1_200_000_000), (9, 2_000_000_000), (1_073_741_900, -1_073_741_900)].iter().enumerate() {
+        for (j, shape) in [json!({"k":"rect","r":[3, -2, 9, 6]}), json!({"k":"rrect","r":[0, 0, 12, 9],"radii":[[3, 2], [1, 4], [0, 0], [5, 5]]}),
+                           json!({"k":"circle","tl":[-4, 1],"d":11}), json!({"k":"ellipse","tl":[2, 2],"size":[9, 14]}),
+                           json!({"k":"arc","tl":[0, 0],"d":13,"a0":320,"sw":2000}), json!({"k":"sector","tl":[1, -1],"d":12,"a0":-800,"sw":-1500})].iter().enumerate() {
+            for (f, sc, w) in [(col.fill, col.stroke, 2u32), (col.fill, -1, 0), (-1, col.stroke, 1)] {
+                if (shape["k"] == "arc") && sc < 0 {
+                    continue;
+                }
+                run_case(&mut rec, &json!({"d": {"kind":"prim","shape":shape,"style":style_desc(f, sc, w, ((k + j) % 3) as u32)}, "by": [by.0, by.1]}));
+            }
         }
     }
     // nearly parallel joints (segments with almost the same or the opposite direction) of thick polylines and
